@@ -19,6 +19,7 @@ pub fn dyn_replay(text: &str, sigs: &[Sig], ov: bool, script: &[Step], opts: &Ru
         "continue_after_error": opts.continue_after_error,
         "seed": opts.seed,
         "repeat_last": opts.repeat_last,
+        "poke": opts.poke,
         "extra_known": sigs_json(&opts.extra_known),
         "expected": expected,
         "observed": obs_items_brief(obs),
@@ -185,6 +186,17 @@ pub fn reuse_observations(text: &str, sigs: &[Sig], uses: &[Use], opts: &RunOpts
     }
     let fresh_tc = load(text, sigs, opts.budget).ok()?;
     let fresh = run_use(&fresh_tc, uses.last()?);
+    // a clone of the used test (taken after its uses) is the same test, and equal to a fresh one
+    if reused == fresh {
+        let cloned = tc.clone();
+        let on_clone = run_use(&cloned, uses.last()?);
+        if on_clone != fresh {
+            return Some((on_clone.into_iter().map(|l| format!("[on a clone of the used test] {l}")).collect(), fresh));
+        }
+        if tc != fresh_tc {
+            return Some((vec!["the used test no longer compares equal (==) to a freshly loaded one".into()], vec!["equal".into()]));
+        }
+    }
     Some((reused, fresh))
 }
 
